@@ -93,6 +93,8 @@ class Engine:
         self.fresh = 0
         self.format_sites = 0
         self.trace = []  # human readable decisions of current path
+        self.decomp = {}
+        self.known = {}
 
     # -- per-run ----------------------------------------------------------
     def start_run(self):
@@ -103,6 +105,8 @@ class Engine:
         self.checks_on_path = 0
         self.fresh = 0
         self.trace = []
+        self.decomp = {}
+        self.known = {}
 
     def _check(self, *assumptions):
         self.queries += 1
@@ -141,7 +145,12 @@ class Engine:
             return True
         if z3.is_false(cond):
             return False
-        return self.choose([cond, z3.Not(cond)]) == 0
+        cid = cond.get_id()
+        if cid in self.known:  # the same condition was already decided on this path
+            return self.known[cid][1]
+        r = self.choose([cond, z3.Not(cond)]) == 0
+        self.known[cid] = (cond, r)
+        return r
 
     def backtrack(self):
         while self.decisions:
@@ -609,7 +618,39 @@ def _bv_binop(a, b, op):
     return z3.BV2Int(r, is_signed=False)
 
 
+def decompose(e, n):
+    """big-endian bytes of (e mod 256**n) as n byte-valued terms.  Linear encoding: fresh byte
+    variables b_k in [0,255] and a fresh quotient q with  e == q*256**n + sum b_k*256**(n-1-k)
+    (always satisfiable, so adding it as a fact is sound); identical terms share their variables."""
+    e = z3.simplify(e)
+    if z3.is_int_value(e):
+        v = e.as_long() % (256**n)
+        return [z3.IntVal((v >> (8 * (n - 1 - k))) & 0xFF) for k in _range(n)]
+    key = (e.get_id(), n)
+    hit = E.decomp.get(key)
+    if hit is not None:
+        return hit[1]
+    E.fresh += 1
+    tag = E.fresh
+    bs = [z3.Int("byte!%d!%d" % (tag, k)) for k in _range(n)]
+    q = z3.Int("quot!%d" % tag)
+    total = z3.Sum([bs[k] * (256 ** (n - 1 - k)) for k in _range(n)]) if n > 1 else bs[0]
+    E.add_fact(z3.And(*[z3.And(b >= 0, b <= 255) for b in bs]))
+    E.add_fact(e == q * (256**n) + total)
+    E.decomp[key] = (e, bs)  # keep e alive so that its id is not reused
+    return bs
+
+
 def _int_to_bytes_fn(e, n, byteorder):
+    if n > 0:
+        bs = decompose(e, n)
+        if byteorder != "big":
+            bs = bs[::-1]
+        return lambda i: _sel_chain(i, bs)
+    return lambda i: z3.IntVal(0)
+
+
+def _int_to_bytes_fn_divmod(e, n, byteorder):
     if byteorder == "big":
         return lambda i: z3.IntVal(0) if n == 0 else _sel_chain(i, [(e / (1 << (8 * (n - 1 - k)))) % 256 for k in _range(n)])
     return lambda i: z3.IntVal(0) if n == 0 else _sel_chain(i, [(e / (1 << (8 * k))) % 256 for k in _range(n)])
@@ -768,12 +809,52 @@ class SymReal:
 # --------------------------------------------------------------------------
 # byte strings: symbolic length, content as a function Int -> Int
 # --------------------------------------------------------------------------
+def _items_get(items):
+    """content function of an explicit list of byte terms"""
+    n = _len(items)
+
+    def get(i):
+        if not _isinstance(i, _int):
+            i = z3.simplify(i)
+            if not z3.is_int_value(i):
+                return _sel_chain(i, items) if n else z3.IntVal(0)
+            i = i.as_long()
+        if 0 <= i < n:
+            return items[i]
+        return z3.IntVal(0)
+
+    return get
+
+
 class SymBytes:
     mutable = False
+    items = None  # explicit list of byte terms when the length is concrete (fast path)
 
-    def __init__(self, length, get):
+    def __init__(self, length, get, items=None):
         self.length = length
         self.get = get
+        self.items = items
+
+    @staticmethod
+    def from_items(items):
+        items = list(items)
+        return SymBytes(_len(items), _items_get(items), items)
+
+    def materialize(self, limit=4096):
+        """explicit byte terms when the length is concrete and small"""
+        if self.items is not None:
+            return self.items
+        n = self.length
+        if _isinstance(n, SymInt):
+            v = z3.simplify(n.e)
+            if not z3.is_int_value(v):
+                return None
+            n = v.as_long()
+        if n > limit:
+            return None
+        self.items = [z3.simplify(self.get(z3.IntVal(k))) for k in _range(n)]
+        self.length = n
+        return self.items
 
     # -- helpers -----------------------------------------------------------
     @staticmethod
@@ -784,10 +865,9 @@ class SymBytes:
         b = _bytes(x)
         n = _len(b)
         if n == 0:
-            return SymBytes(0, lambda i: z3.IntVal(0))
-        if n <= 64:
-            vals = [z3.IntVal(v) for v in b]
-            return SymBytes(n, lambda i: _sel_chain(i, vals))
+            return SymBytes(0, lambda i: z3.IntVal(0), [])
+        if n <= 2048:
+            return SymBytes.from_items([z3.IntVal(v) for v in b])
         arr = z3.K(z3.IntSort(), z3.IntVal(0))
         for k, v in enumerate(b):
             if v:
@@ -796,7 +876,10 @@ class SymBytes:
 
     def byte(self, i):
         """SymInt value of byte i (i: int | SymInt | z3), with its range fact"""
-        v = z3.simplify(self.get(_z(i)))
+        if self.items is not None and _isinstance(i, _int):
+            v = self.items[i]
+        else:
+            v = z3.simplify(self.get(_z(i)))
         if not z3.is_int_value(v):
             E.add_fact(z3.And(v >= 0, v <= 255))
             return SymInt(v)
@@ -825,6 +908,8 @@ class SymBytes:
         return a, b
 
     def slice(self, a, b):
+        if self.items is not None and _isinstance(a, _int) and _isinstance(b, _int):
+            return SymBytes.from_items(self.items[a:b])
         g = self.get
         az = _z(a)
         ln = b - a
@@ -855,6 +940,12 @@ class SymBytes:
         if not _isinstance(o, (SymBytes, _bytes, _bytearray)):
             return NotImplemented
         o = SymBytes.of(o)
+        if self.items is not None and o.items is not None:
+            return SymBytes.from_items(self.items + o.items)
+        if self.items is not None and not self.items:
+            return SymBytes(o.length, o.get, o.items)
+        if o.items is not None and not o.items:
+            return SymBytes(self.length, self.get, self.items)
         n1 = self.length
         g1, g2 = self.get, o.get
         n1z = _z(n1)
@@ -887,8 +978,9 @@ class SymBytes:
             n = concretize(la)
             return SymBytes(n, self.get).eq_term(o)
         conj = [_z(lb) == la]
+        ia, ib = self.materialize(), (o.materialize() if not _isinstance(lb, SymInt) else None)
         for i in _range(la):
-            conj.append(self.get(z3.IntVal(i)) == o.get(z3.IntVal(i)))
+            conj.append((ia[i] if ia is not None else self.get(z3.IntVal(i))) == (ib[i] if ib is not None and i < _len(ib) else o.get(z3.IntVal(i))))
         return z3.And(*conj)
 
     def __eq__(self, o):
@@ -928,7 +1020,7 @@ class SymByteArray(SymBytes):
         if init is None:
             SymBytes.__init__(self, 0, lambda i: z3.IntVal(0))
         elif _isinstance(init, SymBytes):
-            SymBytes.__init__(self, init.length, init.get)
+            SymBytes.__init__(self, init.length, init.get, init.items)
         elif _isinstance(init, (SymInt, _int)):
             if _isinstance(init, _int) and init < 0:
                 raise ValueError("negative count")
@@ -937,11 +1029,11 @@ class SymByteArray(SymBytes):
             SymBytes.__init__(self, init, lambda i: z3.IntVal(0))
         else:
             v = SymBytes.of(init)
-            SymBytes.__init__(self, v.length, v.get)
+            SymBytes.__init__(self, v.length, v.get, v.items)
 
     def __iadd__(self, o):
         r = SymBytes.__add__(self, o)
-        self.length, self.get = r.length, r.get
+        self.length, self.get, self.items = r.length, r.get, r.items
         return self
 
     def __setitem__(self, k, v):
@@ -953,11 +1045,13 @@ class SymByteArray(SymBytes):
                 raise IndexError("bytearray index out of range")
             g = self.get
             kz, vz = _z(k), _z(v)
+            self.items = None
             self.get = lambda i: z3.If(i == kz, vz, g(i))
             return
         v = SymBytes.of(v)
         a, b = self._norm(k)
         n = self.length
+        self.items = None
         g, gv = self.get, v.get
         az, bz, vl = _z(a), _z(b), _z(v.length)
         self.length = n - (b - a) + v.length
@@ -968,6 +1062,7 @@ class SymByteArray(SymBytes):
             raise Unsupported("del bytearray[i]")
         a, b = self._norm(k)
         n = self.length
+        self.items = None
         g = self.get
         az, bz = _z(a), _z(b)
         self.length = n - (b - a)
@@ -1037,7 +1132,7 @@ class sym_bytes(metaclass=_BytesMeta):
         if x is None:
             return b""
         if _isinstance(x, SymBytes):
-            return SymBytes(x.length, x.get)
+            return SymBytes(x.length, x.get, x.items)
         if _isinstance(x, SymInt):
             return SymBytes(x, lambda i: z3.IntVal(0))
         if _isinstance(x, (list, tuple)) and any(_isinstance(v, SymInt) for v in x):
@@ -1273,6 +1368,8 @@ def Bytes(name, maxlen, minlen=0):
         E.size_like.append(nz)
         n = SymInt(nz)
     E.inputs[name] = ("bytes", (n, f))
+    if _isinstance(n, _int) and n <= 2048:
+        return SymBytes.from_items([f(z3.IntVal(k)) for k in _range(n)])
     return SymBytes(n, lambda i: f(i))
 
 
@@ -1338,6 +1435,20 @@ def check_bytes_eq(a, b, msg):
     m = E.prove(_z(a.length) == _z(b.length))
     if m is not None:
         raise Violation(msg + " (length)", E.extract_inputs(m), site=_site())
+    la = z3.simplify(_z(a.length))
+    if z3.is_int_value(la) and la.as_long() <= 4096:
+        # concrete length: compare at concrete indexes (the nested selections fold at construction)
+        conj = []
+        ia, ib = a.materialize(), b.materialize()
+        for k in _range(la.as_long()):
+            c = z3.simplify((ia[k] if ia is not None else a.get(z3.IntVal(k))) == (ib[k] if ib is not None and k < _len(ib) else b.get(z3.IntVal(k))))
+            if not z3.is_true(c):
+                conj.append(c)
+        if conj:
+            m = E.prove(z3.And(*conj))
+            if m is not None:
+                raise Violation(msg + " (content)", E.extract_inputs(m), site=_site())
+        return
     i = z3.Int(E.fresh_name("sk"))
     m = E.prove(z3.Implies(z3.And(i >= 0, i < _z(a.length)), a.get(i) == b.get(i)))
     if m is not None:
@@ -1532,3 +1643,156 @@ def replay(fn, values):
     finally:
         E.mode = "sym"
     return {"reproduced": False, "why": "concrete run satisfied every check"}
+
+
+# --------------------------------------------------------------------------
+# strings obtained by decoding symbolic bytes; dict lookup with symbolic keys
+# --------------------------------------------------------------------------
+class SymStr:
+    """result of SymBytes.decode(); supports encode(), equality and truth"""
+
+    def __init__(self, raw, encoding):
+        self.raw = raw
+        self.encoding = encoding
+
+    def encode(self, encoding="utf-8", errors="strict"):
+        return self.raw
+
+    def __eq__(self, o):
+        if _isinstance(o, SymStr):
+            return self.raw == o.raw
+        if _isinstance(o, str):
+            try:
+                return self.raw == o.encode(self.encoding)
+            except UnicodeEncodeError:
+                return False
+        return False
+
+    def __ne__(self, o):
+        return not self.__eq__(o)
+
+    def __hash__(self):
+        n = _len(self.raw)
+        return hash(_bytes(concretize(self.raw.byte(i)) if _isinstance(self.raw.byte(i), SymInt) else self.raw.byte(i) for i in _range(n)))
+
+    def __bool__(self):
+        return bool(self.raw)
+
+    def __len__(self):
+        return _len(self.raw)
+
+    def __str__(self):
+        return "<symstr>"
+
+    __repr__ = __str__
+
+    def __format__(self, spec):
+        return "<symstr>"
+
+
+def _symbytes_decode(self, encoding="utf-8", errors="strict"):
+    enc = encoding.lower().replace("-", "")
+    n = _len(self)  # concretises a symbolic length (bounded by the harness)
+    if enc in ("ascii", "utf8"):
+        for i in _range(n):
+            b = self.byte(i)
+            if b >= 128:
+                if enc == "ascii":
+                    if errors == "strict":
+                        raise UnicodeDecodeError("ascii", b"\x80", 0, 1, "ordinal not in range(128)")
+                else:
+                    raise Unsupported("decoding non-ASCII utf-8 from symbolic bytes")
+    else:
+        raise Unsupported("decode(%r)" % encoding)
+    return SymStr(SymBytes(n, self.get), "ascii")
+
+
+SymBytes.decode = _symbytes_decode
+
+
+class SymKeyDict:
+    """wraps a dict with concrete int keys so that a lookup with a symbolic key is one
+    decision (equals key k1 | ... | kn | absent) instead of hashing the key"""
+
+    def __init__(self, d):
+        self.d = d
+
+    def _resolve(self, k):
+        if not _isinstance(k, SymInt):
+            return k if k in self.d else None
+        keys = list(self.d)
+        opts = [k.e == _int(c) for c in keys] + [z3.And(*[k.e != _int(c) for c in keys])]
+        i = E.choose(opts)
+        return keys[i] if i < _len(keys) else None
+
+    def __contains__(self, k):
+        return self._resolve(k) is not None
+
+    def __getitem__(self, k):
+        r = self._resolve(k)
+        if r is None:
+            raise KeyError(k)
+        return self.d[r]
+
+    def get(self, k, default=None):
+        r = self._resolve(k)
+        return default if r is None else self.d[r]
+
+    def items(self):
+        return self.d.items()
+
+    def keys(self):
+        return self.d.keys()
+
+    def values(self):
+        return self.d.values()
+
+    def __iter__(self):
+        return iter(self.d)
+
+    def __len__(self):
+        return _len(self.d)
+
+
+def BufferClass():
+    """the Buffer implementation harness code should construct: the symbolic twin
+    while exploring, the real C class when a counterexample is replayed"""
+    if E.mode == "replay":
+        from aioquic.buffer import Buffer
+
+        return Buffer
+    from .twinbuf import TwinBuffer
+
+    return TwinBuffer
+
+
+def check_same(a, b, msg):
+    """structural equality of decoded values (dataclasses, lists, tuples, bytes, ints, strings)"""
+    import dataclasses
+
+    if dataclasses.is_dataclass(a) and not _isinstance(a, type):
+        check(type(a) is type(b), msg + ": type differs")
+        for f in dataclasses.fields(a):
+            check_same(getattr(a, f.name), getattr(b, f.name), msg + "." + f.name)
+        return
+    if _isinstance(a, (list, tuple)) and _isinstance(b, (list, tuple)):
+        check(_len(a) == _len(b), msg + ": list length differs")
+        for k, (x, y) in enumerate(zip(a, b)):
+            check_same(x, y, msg + "[%d]" % k)
+        return
+    if _isinstance(a, SymStr):
+        a = a.raw
+        b = b.raw if _isinstance(b, SymStr) else (b.encode("ascii") if _isinstance(b, str) else b)
+    elif _isinstance(b, SymStr):
+        b = b.raw
+        a = a.encode("ascii") if _isinstance(a, str) else a
+    if _isinstance(a, (SymBytes, _bytes, _bytearray)) and _isinstance(b, (SymBytes, _bytes, _bytearray)):
+        check_bytes_eq(a, b, msg)
+        return
+    if a is None or b is None:
+        check(a is None and b is None, msg + ": None vs value")
+        return
+    if _isinstance(a, bool) or _isinstance(b, bool):
+        check(bool(a) == bool(b), msg)
+        return
+    check(a == b, msg)
